@@ -693,12 +693,18 @@ func newObservedMap(pass *analysishelper.EnhancedPass, files []*ast.File) *Obser
 			}
 			funcDecl, ok := funcObjToFuncDecl[funcObj]
 			if !ok {
-				panic(funcObj.FullName() + " not found but this should not happen since we " +
-					"have parsed annotations once for every function declaration and the " +
-					"mappings should have been set up.")
+				// We have parsed the annotations of every function declaration in the files in
+				// scope of this package. The callee is declared elsewhere (in another package, or
+				// in a file that is excluded from the analysis), so we do not have the declaration
+				// that the annotation refers to; keep searching for nested CallExpr nodes.
+				return true
 			}
 			callSite := CallSite{Fun: funcObj, Location: pass.PosToLocation(expr.Pos())}
 			for i, val := range accFromFieldList(set, funcDecl.Type.Params, true, true) {
+				if i >= len(expr.Args) {
+					// The call passes no argument for a variadic parameter.
+					break
+				}
 				argLoc := pass.PosToLocation(expr.Args[i].Pos())
 				funcCallSiteParamAnnMap[callSite] = append(funcCallSiteParamAnnMap[callSite],
 					ArgLocAndVal{Location: argLoc, Val: val})
